@@ -464,8 +464,8 @@ func RandCall(r *rand.Rand, mode string) Call {
 		// thousands of pieces per call cost TLC tens of minutes each (the predicate is quadratic in the text):
 		// with a small SplitLen a text of 1500 bytes already gives more than a hundred pieces
 		for i := range a {
-			if len(a[i]) > 1500 {
-				a[i] = a[i][:1500]
+			if r := []rune(a[i]); len(r) > 1500 {
+				a[i] = string(r[:1500])
 			}
 		}
 	}
